@@ -16,6 +16,7 @@ inductive Val
   | map (m : List (Bytes × Bytes))
   | num (s : Bytes)            -- the Float64 parsed from the text `s` (parsing is an oracle)
   | numLit (s : String)        -- a numeric literal written by the planner, e.g. `5.000000`
+  | strs (vs : List Bytes)     -- Array(String) (C11: groupArray / groupUniqArray of span ids)
 deriving DecidableEq, Repr
 
 abbrev Row := List (String × Val)
@@ -128,7 +129,21 @@ def evalE (o : Oracles) (env : Env) (r : Row) : Expr → Val
     | _, _ => .null
   | .orderBy e _ => evalE o env r e
   | .sub _ => .null
-  | .setop _ _ => .null
+  -- added for C11 (row-level meaning; aggregates and set operations are evaluated by `Sql.SemG`)
+  | .callT fn args =>
+    match fn, evalEs o env r args with
+    | "match", [.str s, .str p] => boolVal (o.reMatch p s)
+    | "toFloat64OrNull", [.str s] => .num s
+    | "toFloat64OrZero", [.str s] => .num s      -- only ever compared under `isNotNull(toFloat64OrNull(·)) == 1`
+    | "isNotNull", [.num s] => boolVal (o.isNum s)
+    | "isNotNull", [.null] => boolVal false
+    | "isNotNull", [_] => boolVal true
+    | _, _ => .null
+  | .bitSet _ _ => .null
+  | .setOp _ _ => .null
+  | .arrayJoin _ _ => .null
+  | .anyIfNum _ => .null
+  | .distinct e => evalE o env r e
 def evalEs (o : Oracles) (env : Env) (r : Row) : List Expr → List Val
   | [] => []
   | e :: es => evalE o env r e :: evalEs o env r es
